@@ -1,9 +1,218 @@
-(* C18/Props.v -- the property theorems, and nothing else. *)
+(* C18/Props.v -- the property theorems, and nothing else.  Each is closed by [exact] of a lemma of
+   Proofs*.v and followed by Print Assumptions.  The oracles (JSON text layer, base64 / buffers, csv
+   text layer) are universally quantified records; the hypotheses Codec_OK, Text_OK, Csv_OK (Spec.v)
+   are everything that is assumed about them. *)
 From Coq Require Import ZArith List Bool String Ascii Lia.
-From PV Require Import Base.NpSearch C18.Model C18.Spec C18.Proofs.
+From PV Require Import Base.NpSearch Base.NpSort C18.Model C18.Spec C18.Ref C18.Proofs C18.ProofsJson C18.ProofsNum
+                       C18.ProofsTsv C18.ProofsPy C18.ProofsRef.
 Import ListNotations.
 Open Scope Z_scope.
 
+(* ------------------------------------------------------------------------------------------------ *)
+(* JSON                                                                                             *)
+(* ------------------------------------------------------------------------------------------------ *)
+
+(* _intify_keys . _stringify_keys is the identity on the key set of the reading: every integer
+   (negative ones included) and every string that is not an optionally signed digit string *)
 Theorem C18_keys : forall k, key_ok k = true -> intify_key (stringify_key k) = k.
 Proof. exact intify_stringify. Qed.
 Print Assumptions C18_keys.
+
+(* hence stringification never merges two keys of a dictionary *)
+Theorem C18_keys_injective : forall a b, key_ok a = true -> key_ok b = true ->
+  stringify_key a = stringify_key b -> a = b.
+Proof.
+  intros a b Ha Hb E. rewrite <- (intify_stringify a Ha), <- (intify_stringify b Hb), E. reflexivity.
+Qed.
+Print Assumptions C18_keys_injective.
+
+(* that excluded set is, declaratively: an optional "-" followed by one or more ASCII digits *)
+Theorem C18_key_set : forall s, int_like s = true <->
+  exists (neg : bool) ds, ds <> [] /\ forallb is_digit ds = true /\ s2l s = if neg then ch_minus :: ds else ds.
+Proof. exact int_like_iff. Qed.
+Print Assumptions C18_key_set.
+
+(* str(dtype) names the dtype: np.dtype(str(dt)) = dt for every numeric dtype in either byte order *)
+Theorem C18_dtype_name : forall dt, dtype_ok dt = true -> dtype_of_name (dtype_name dt) = Some dt.
+Proof. exact dtype_name_inv. Qed.
+Print Assumptions C18_dtype_name.
+
+(* every well-formed value decodes from its encoding as its normal form, for every codec whose base64
+   and buffer functions round-trip: structural induction over None, bool, int, float, str, lists,
+   nested dictionaries, NumPy scalars and arrays of every dtype, shape and memory layout *)
+Theorem C18_json : forall (C : codec), Codec_OK C ->
+  forall v, wfb v = true -> decode C (encode C v) = Some (normalise v).
+Proof. exact decode_encode. Qed.
+Print Assumptions C18_json.
+
+(* the array clauses of the statement, spelled out: an array that is not 1-D with <= 10 items keeps
+   dtype, shape and (C-order) values whatever its layout; a 1-D array of <= 10 items is an equal list *)
+Theorem C18_json_array : forall (C : codec), Codec_OK C -> forall dt shape lay el,
+  wfb (PArr dt shape lay el) = true ->
+  decode C (encode C (PArr dt shape lay el)) =
+  Some (if small1d shape then PList (map scalar_py el) else PArr dt shape LC el).
+Proof. intros C HC dt shape lay el H. rewrite (decode_encode C HC _ H). reflexivity. Qed.
+Print Assumptions C18_json_array.
+
+(* save_json then load_json on the JSON tree: keys (integers as integers) and normal forms of the values *)
+Theorem C18_json_top : forall (C : codec), Codec_OK C ->
+  forall d, wf_top_b d = true -> load_json C (save_json C d) = Some (normalise_top d).
+Proof. exact load_save. Qed.
+Print Assumptions C18_json_top.
+
+(* the same through the file text, for every text layer that parses what it printed *)
+Theorem C18_json_file : forall (C : codec), Codec_OK C -> forall (T : Type) (L : textlayer T), Text_OK L ->
+  forall d, wf_top_b d = true -> load_json_text C L (save_json_text C L d) = Some (normalise_top d).
+Proof. intros C HC T L HL. exact (load_save_text C HC L HL). Qed.
+Print Assumptions C18_json_file.
+
+(* the text layer is only ever asked about trees whose object members are in sorted key order, on
+   which sort_keys=True is the identity *)
+Theorem C18_json_sorted : forall (C : codec) d, wf_top_b d = true -> jsorted (save_json C d) = true.
+Proof. exact save_sorted. Qed.
+Print Assumptions C18_json_sorted.
+
+(* ------------------------------------------------------------------------------------------------ *)
+(* tables                                                                                           *)
+(* ------------------------------------------------------------------------------------------------ *)
+
+(* str(int) reads back as that int; '%.nf' % x reads back as a float: the decimal literal
+   round_half_even(|x| * 10^n) * 10^-n with the sign of x (nan / inf by name), never as an int *)
+Theorem C18_int_text : forall z, try_make_number (CT (l2s (show_int z))) = OInt z.
+Proof. exact try_number_int. Qed.
+Print Assumptions C18_int_text.
+
+Theorem C18_float_text : forall n f, 1 <= n -> (match f with FFin _ m _ => 0 <= m | _ => True end) ->
+  try_make_number (CT (l2s (fmt n f))) =
+  match f with
+  | FFin neg m e => ODec neg (scaled n m e) (- n)
+  | FNaN => ONaN
+  | FInf neg => OInf neg
+  end.
+Proof. exact try_number_float. Qed.
+Print Assumptions C18_float_text.
+
+(* "to the written precision": the written mantissa is a nearest integer to |x| * 10^n, ties to even *)
+Theorem C18_rounding : forall num den, 0 < den -> 0 <= num ->
+  2 * Z.abs (rhe num den * den - num) <= den /\
+  (2 * Z.abs (rhe num den * den - num) = den -> Z.even (rhe num den) = true).
+Proof. intros num den H1 H2. split; [apply rhe_nearest|apply rhe_tie_even]; assumption. Qed.
+Print Assumptions C18_rounding.
+
+(* a non-numeric string (one that int() and float() both reject, non-empty) is left unchanged *)
+Theorem C18_nonnumeric : forall s, nonnumeric s = true -> try_make_number (CT s) = OStr s.
+Proof.
+  intros s H. unfold nonnumeric in H. apply andb_true_iff in H. destruct H as [_ H].
+  cbn [try_make_number]. destruct (py_int (s2l s)); [discriminate|]. destruct (py_float (s2l s)); [discriminate|].
+  reflexivity.
+Qed.
+Print Assumptions C18_nonnumeric.
+
+(* write_tsv then read_tsv, >= 2 columns, either delimiter, any first_field / exclude_fields,
+   n >= 1 digits, rows with missing fields, None values and fully empty rows, string cells with the
+   other delimiter or quotes: every row reads back as a dictionary with distinct keys, holding
+   exactly the non-None, non-excluded fields of the written row with integer / float-to-precision /
+   string values, the requested first field first *)
+Theorem C18_tsv : forall (T : Type) (V : csvlayer T), Csv_OK V ->
+  forall dl first excl n rows,
+  1 <= n -> forallb row_ok rows = true -> 2 <= zlen (fields_of first excl rows) ->
+  exists out, read_tsv V (write_tsv V dl first excl n rows) = Some out /\ Rows_Spec first excl n rows out.
+Proof. intros T V HV. exact (read_write_tsv V HV). Qed.
+Print Assumptions C18_tsv.
+
+(* the header: distinct fields; exactly the non-excluded fields of the rows; first_field first *)
+Theorem C18_tsv_fields : forall first excl rows,
+  NoDup (fields_of first excl rows) /\
+  (forall k, In k (fields_of first excl rows) <->
+             (exists r, In r rows /\ In k (map fst r)) /\ smem k excl = false) /\
+  (forall f, first = Some f -> In f (fields_of first excl rows) -> exists t, fields_of first excl rows = f :: t).
+Proof.
+  intros first excl rows. split; [apply fields_nodup|]. split; [apply fields_in|apply fields_first].
+Qed.
+Print Assumptions C18_tsv_fields.
+
+(* two-column cluster tables with arbitrary (also negative) distinct ids and int / float /
+   non-numeric string values: field name, ids and values read back (floats exactly: repr) *)
+Theorem C18_tsv_simple : forall (T : Type) (V : csvlayer T), Csv_OK V ->
+  forall dl field data,
+  znodup_b (map fst data) = true -> forallb (fun kv => simple_value_ok (snd kv)) data = true ->
+  no_tab field = true -> str_csv_ok field = true ->
+  exists out, read_simple V (write_simple V dl field data) = Some out /\ Simple_Spec field data out.
+Proof. intros T V HV. exact (read_write_simple V HV). Qed.
+Print Assumptions C18_tsv_simple.
+
+(* ------------------------------------------------------------------------------------------------ *)
+(* parameter files                                                                                  *)
+(* ------------------------------------------------------------------------------------------------ *)
+
+(* evaluating repr(s) gives s, for every string: quotes, backslashes, line breaks, control characters *)
+Theorem C18_python_repr : forall s : list ascii, eval_str_lit (repr_str s) = Some s.
+Proof. exact eval_repr_str. Qed.
+Print Assumptions C18_python_repr.
+
+(* and repr(s) has no raw line break: each assignment stays on its own line *)
+Theorem C18_python_one_line : forall s : list ascii,
+  forallb (fun c => negb ((code c =? 10) || (code c =? 13))) (repr_str s) = true.
+Proof. exact repr_str_one_line. Qed.
+Print Assumptions C18_python_one_line.
+
+(* read_python (write_python d) = d for dictionaries over lower-case identifier keys and None, bool,
+   int, finite float, str (any characters), lists and string-keyed dictionaries of these *)
+Theorem C18_python : forall d, py_ok d = true -> read_python (write_python d) = Some d.
+Proof. exact read_write_python. Qed.
+Print Assumptions C18_python.
+
+(* ------------------------------------------------------------------------------------------------ *)
+(* non-vacuity: the oracle hypotheses are satisfiable; concrete non-trivial instances               *)
+(* ------------------------------------------------------------------------------------------------ *)
+(* the reference oracles of the correspondence (Ref.v, Model.v) satisfy all three hypotheses *)
+Theorem C18_oracles_satisfiable : Codec_OK ref_codec /\ Text_OK ref_text /\ Csv_OK ref_csv.
+Proof. split; [exact ref_codec_ok|]. split; [exact ref_text_ok|exact ref_csv_ok]. Qed.
+Print Assumptions C18_oracles_satisfiable.
+
+(* so the very terms the comparator evaluates (Corr.v, code 1) meet the specification *)
+Theorem C18_json_ref : forall d, wf_top_b d = true ->
+  load_json_text ref_codec ref_text (save_json_text ref_codec ref_text d) = Some (normalise_top d).
+Proof. exact (load_save_text ref_codec ref_codec_ok ref_text ref_text_ok). Qed.
+Print Assumptions C18_json_ref.
+
+Theorem C18_tsv_ref : forall dl first excl n rows,
+  1 <= n -> forallb row_ok rows = true -> 2 <= zlen (fields_of first excl rows) ->
+  exists out, read_tsv ref_csv (write_tsv ref_csv dl first excl n rows) = Some out /\
+              Rows_Spec first excl n rows out.
+Proof. exact (read_write_tsv ref_csv ref_csv_ok). Qed.
+Print Assumptions C18_tsv_ref.
+
+Open Scope string_scope.
+Example C18_ex_keys :
+  map (fun k => intify_key (stringify_key k)) [KInt (-12); KInt 0; KInt 340282366920938463463374607431768211456; KStr "-"; KStr "1a"; KStr ""]
+  = [KInt (-12); KInt 0; KInt 340282366920938463463374607431768211456; KStr "-"; KStr "1a"; KStr ""].
+Proof. vm_compute. reflexivity. Qed.
+
+Example C18_ex_wf :
+  wf_top_b [(KInt (-1), PArr (mkdt BI16 true) [3; 4] LF (map SInt [0; 1; 2; 3; 4; 5; 6; 7; 8; 9; 10; 11]));
+            (KInt 7, PList [PNone; PNp (mkdt BF32 false) (SFlt (FFin false 1 (-2))); PStr "x"]);
+            (KStr "a", PDict [("b", PArr (mkdt BF64 false) [10] LS (map (fun z => SFlt (FFin false z (-3))) [1; 3; 5; 7; 9; 11; 13; 15; 17; 19]))]);
+            (KStr "v", PArr (mkdt BU8 false) [11] LR (map SInt [0; 1; 2; 3; 4; 5; 6; 7; 8; 9; 255]))] = true
+  /\ wfb (PArr (mkdt BF64 false) [2] LC [SFlt (FFin true 3 (-1)); SFlt FNaN]) = true.
+Proof. vm_compute. split; reflexivity. Qed.
+
+Example C18_ex_rows :
+  let rows := [[("a", VFloat (FFin true 5 (-19))); ("b", VStr "x,""y""")]; [];
+               [("c", VNone); ("a", VInt 3)]; [("b", VFloat (FFin false 3 (-5))); ("a", VFloat FNaN)]] in
+  forallb row_ok rows = true /\ fields_of (Some "b") [] rows = ["b"; "a"; "c"] /\
+  read_tsv ref_csv (write_tsv ref_csv Comma (Some "b") [] 4 rows) =
+  Some [[("b", OStr "x,""y"""); ("a", ODec true 0 (-4))]; [];
+        [("a", OInt 3)]; [("b", ODec false 938 (-4)); ("a", ONaN)]].
+Proof. vm_compute. repeat split; reflexivity. Qed.
+
+Example C18_ex_simple :
+  read_simple ref_csv (write_simple ref_csv Tab "group" [(3, VStr "good"); (-2, VFloat (FFin false 1 (-3))); (10, VInt 7)])
+  = Some ("group", [(-2, OFlt (FFin false 1 (-3))); (3, OStr "good"); (10, OInt 7)]).
+Proof. vm_compute. reflexivity. Qed.
+
+Example C18_ex_python :
+  let d := [("dat_path", PList [PStr "a.dat"; PStr "b ""c"".dat"]); ("n_channels_dat", PInt 384);
+            ("note", PStr (l2s (map chr [104; 105; 34; 39; 92; 10; 9; 1; 200])))] in
+  py_ok d = true /\ read_python (write_python d) = Some d.
+Proof. vm_compute. split; reflexivity. Qed.
